@@ -15,7 +15,8 @@ MODULE = "LasioProofs.Props.C11"
 RULE = ("inputs x writer option sets x cycles: L0 = read(x); x1 = write(L0); L1 = read(x1); x2 = write(L1); L2 = read(x2); ... up to "
         "k = 4 re-reads.  Inputs: every file of tests/examples (unreadable / unwritable ones counted and skipped), generated documents "
         "(harness/lasdoc.gen_doc: section permutations, custom sections, fillers, DLM variants; c16.gen_text: right / wrong STOP, unit "
-        "mismatches; texts written by lasio from generated objects), and line mutations of all of them (duplicated / blank mnemonics, "
+        "mismatches, STEP values that do not describe the data, WRAP spelled Yes/yes/No; texts written by lasio from generated objects; a sweep of WRAP "
+        "spellings x 2..4 curves x data_width 12/24/79 x wrap None/True/False), and line mutations of all of them (duplicated / blank mnemonics, "
         "units .1IN / 1000 lbf / numeric units with empty values, empty values, long fields, colons, case variants).  Options: version "
         "1.2 / 2.0 / None, wrap None / True / False, fmt %.5f / %.2f / %.8f / widths, column_fmt, len_numeric_field, spacers, data_width, "
         "mnemonics_header.  ORACLE on the real code: canon(L_{i+1}) = canon(L_i) for i >= 1 (every section incl. custom ones: original "
@@ -356,6 +357,16 @@ def run(run):
     cycle(run, {"kind": "text", "text": NUMERIC_INDEX_UNIT}, PLAIN, {}, K, ["finding:numeric-unit-swallows-value"], pend)
     cycle(run, {"kind": "text", "text": PURE_NUMERIC_UNIT}, PLAIN, {}, K, ["finding:numeric-unit-swallows-value"], pend)
     cycle(run, {"kind": "text", "text": LEADING_PERIOD_UNIT}, PLAIN, {}, K, ["finding:unit-leading-period"], pend)
+    # the WRAP item in other spellings x narrow data widths: the reader takes only the exact text YES for a wrapped file and
+    # write(wrap=None) never wraps, so whatever the spelling the output is read back the way it was written
+    for spelling in ("YES", "Yes", "yes", "NO", "No"):
+        for ncur in (2, 3, 4):
+            for dw in (12, 24, 79):
+                rows = "".join(" ".join("%.3f" % (10.0 * i + j) for j in range(ncur)) + "\n" for i in range(1, 4))
+                text = ("~Version\nVERS. 2.0 : v\nWRAP. %s : w\n~Well\nSTRT.M 10.0 : s\nSTOP.M 30.0 : s\nSTEP.M 10.0 : s\nNULL. -999.25 : n\n~Curves\n"
+                        % spelling + "".join("C%d.M : c\n" % j for j in range(ncur)) + "~A\n" + rows)
+                for wrap in (None, True, False):
+                    cycle(run, {"kind": "text", "text": text}, dict(PLAIN, wrap=wrap, data_width=dw), {}, 3, ["wrap-spelling"], pend)
     # the example corpus, as it is and mutated
     files = corpus()
     for rel in files:
